@@ -17,6 +17,7 @@ ITEMSIZES = [1, 8]
 THRESHOLDS = [1, 2, 4, 32]
 LIMITS = [1, 16, 128, 10**9]
 DEGREES = [2, 3, 100]
+QUICK_LIMITS = [1, 16, 32, 10**9]
 
 
 def _shapes(tier):
@@ -36,12 +37,17 @@ def plan(tier, seed):
         nparts = max(1, len(chs) // 8)
         for part in range(nparts):
             shards.append({"shape": list(shp), "part": part, "parts": nparts, "tier": tier})
+    for n in (UNIFORM_N if tier != "quick" else UNIFORM_N[:2]):
+        shards.append({"what": "uniform", "n": n, "tier": tier})
+    for n in range(1, (9 if tier != "quick" else 8)):
+        shards.append({"what": "helpers", "n": n, "tier": tier})
+    shards.append({"what": "helpers-uniform", "tier": tier})
     return {
         "shards": shards,
         "coverage": {
             "exhaustive": True,
-            "bounds": {"shapes": [list(s) for s in _shapes(tier)], "itemsize": ITEMSIZES, "threshold": THRESHOLDS if tier != "quick" else [1, 4], "block_size_limit_bytes": LIMITS if tier != "quick" else [1, 128, 10**9], "degree_limit": DEGREES},
-            "rule": "every (old, new) pair of chunkings of each shape x itemsize x threshold x block-size limit x degree-limit: plan_rechunk output is a finite non-empty list of chunkings of the shape ending in new; every intermediate step's largest block <= max(limit/itemsize, largest old, largest new); old_to_new of every consecutive pair covers each new block exactly once, in order, with contiguous in-bounds pieces (brute force on index ranges); the _compute_rechunk layer of every step executed on labelled data reproduces the array. Non-trivial = plan with >= 2 steps or a pair that both merges and splits",
+            "bounds": {"uniform_axis_lengths": list(UNIFORM_N), "helper_axis_lengths": 8, "shapes": [list(s) for s in _shapes(tier)], "itemsize": ITEMSIZES, "threshold": THRESHOLDS if tier != "quick" else [1, 4], "block_size_limit_bytes": LIMITS if tier != "quick" else QUICK_LIMITS, "degree_limit": DEGREES},
+            "rule": "(helpers: merge_to_number(c, k) for every chunking c of n<=8 and every uniform (w,)*m, every k: an exact merge of whole blocks into <= k blocks summing to the length; divide_to_width(c, w): an exact refinement with blocks <= w; uniform family: every pair of uniform chunkings of axes of length 12/18/24/30, alone and crossed with a second axis, under degree limits 2/3/5) every (old, new) pair of chunkings of each shape x itemsize x threshold x block-size limit x degree-limit: plan_rechunk output is a finite non-empty list of chunkings of the shape ending in new; every intermediate step's largest block <= max(limit/itemsize, largest old, largest new); old_to_new of every consecutive pair covers each new block exactly once, in order, with contiguous in-bounds pieces (brute force on index ranges); the _compute_rechunk layer of every step executed on labelled data reproduces the array. Non-trivial = plan with >= 2 steps or a pair that both merges and splits",
         },
         "assumptions": ["config keys are set through dask.config for each call", "labelled data = arange over the shape"],
     }
@@ -162,13 +168,93 @@ def _check_plan(old, new, itemsize, threshold, limit, degree, out, do_exec):
         out.sample({"old": old, "new": new, "itemsize": itemsize, "threshold": threshold, "limit": limit, "degree": degree, "plan": plan})
 
 
+UNIFORM_N = (12, 18, 24, 30)
+
+
+def _uniforms(n):
+    return [((n // k,) * k) for k in range(1, n + 1) if n % k == 0]
+
+
+def _bounds(c):
+    return set(np.cumsum(c).tolist())
+
+
+def _check_helper(fn_name, desired, arg, out):
+    """merge_to_number / divide_to_width are exact coarsenings / refinements."""
+    from dask_array import _rechunk as R
+
+    out.count("evaluations")
+    out.count("transitions")
+    out.count("helper_calls")
+    case = {"what": "helper", "fn": fn_name, "desired": list(desired), "arg": arg}
+    try:
+        res = getattr(R, fn_name)(tuple(desired), arg)
+    except Exception as e:  # noqa: BLE001
+        return out.fail({"kind": "helper-raise", "signature": f"helper-raise:{fn_name}:{type(e).__name__}", "case": case, "detail": f"{fn_name}({desired}, {arg}) raised {type(e).__name__}: {e}"})
+    res = tuple(res)
+    total = sum(desired)
+    msg = None
+    if sum(res) != total or any((not isinstance(v, (int, np.integer))) or v <= 0 for v in res):
+        msg = f"is not a positive chunking of length {total}"
+    elif fn_name == "merge_to_number":
+        if len(res) > max(arg, 1) and len(desired) > arg:
+            msg = f"has {len(res)} blocks, more than {arg}"
+        elif len(desired) <= arg and res != tuple(desired):
+            msg = "changed a chunking that already has few enough blocks"
+        elif not _bounds(res) <= _bounds(desired):
+            msg = "is not a merge of whole input blocks"
+    else:
+        if max(res) > arg:
+            msg = f"has a block wider than {arg}"
+        elif not _bounds(desired) <= _bounds(res):
+            msg = "does not keep every input block boundary"
+    if msg:
+        return out.fail({"kind": "helper", "signature": f"helper:{fn_name}:{'uniform' if len(set(desired)) == 1 else 'ragged'}", "case": case, "detail": f"{fn_name}({tuple(desired)}, {arg}) = {res} {msg}"})
+    out.count("accepted")
+
+
+def _run_helpers(shard, out):
+    if shard["what"] == "helpers":
+        chs = [c for c in compositions(shard["n"])]
+    else:
+        chs = [(w,) * m for w in range(1, 6) for m in range(1, 16 if shard["tier"] != "quick" else 13)]
+    for c in chs:
+        out.sadd("state_keys", hash(("h", c)))
+        for k in range(1, len(c) + 2):
+            _check_helper("merge_to_number", c, k, out)
+        for w in range(1, max(c) + 2):
+            _check_helper("divide_to_width", c, w, out)
+
+
+def _run_uniform(shard, out):
+    """Uniform chunkings of longer axes: the only way to reach the degree
+    bound's subdivision (merge_to_number fast path) with block width > 1."""
+    n = shard["n"]
+    us = _uniforms(n)
+    second = [(4,), (2, 2), (1, 1, 1, 1)]
+    pairs = [((o,), (nw,)) for o in us for nw in us] + [((o, s0), (nw, s1)) for o in us for nw in us for s0 in second for s1 in second if (len(o) > 1 or len(nw) > 1)][:: (1 if shard["tier"] != "quick" else 3)]
+    for old, new in pairs:
+        out.sadd("state_keys", hash((old, new)))
+        for itemsize in (1, 8):
+            for t in (1, 4):
+                for l in (16, 128, 10**9):
+                    for d in (2, 3, 5):
+                        _check_plan(old, new, itemsize, t, l, d, out, do_exec=(itemsize == 1 and t == 1 and l == 16 and len(old) == 1))
+
+
 def run_shard(shard):
     out = ShardOut()
+    if shard.get("what") in ("helpers", "helpers-uniform"):
+        _run_helpers(shard, out)
+        return out.result()
+    if shard.get("what") == "uniform":
+        _run_uniform(shard, out)
+        return out.result()
     shp = tuple(shard["shape"])
     tier = shard["tier"]
     chs = _chunkings(shp)
     thr = THRESHOLDS if tier != "quick" else [1, 4]
-    lim = LIMITS if tier != "quick" else [1, 128, 10**9]
+    lim = LIMITS if tier != "quick" else QUICK_LIMITS
     for i, old in enumerate(chs):
         if i % shard["parts"] != shard["part"]:
             continue
@@ -201,6 +287,9 @@ def vacuity(agg, plan):
 
 def replay(case):
     out = ShardOut()
+    if case.get("what") == "helper":
+        _check_helper(case["fn"], tuple(case["desired"]), case["arg"], out)
+        return out.failures[0] if out.failures else None
     old = tuple(tuple(c) for c in case["old"])
     new = tuple(tuple(c) for c in case["new"])
     _check_plan(old, new, case["itemsize"], case["threshold"], case["limit"], case["degree"], out, do_exec=True)
